@@ -622,6 +622,31 @@ func (w *World) call(r *Replica, t callTarget, a pt.Action) (out StepOut) {
 
 var errTxFail = fmt.Errorf("harness: transaction body fails")
 
+// readInTx reads the whole value through the in-transaction view of the datatype.
+func readInTx(t callTarget) (out string) {
+	defer func() {
+		if p := recover(); p != nil {
+			out = fmt.Sprint("panic: ", p)
+		}
+	}()
+	switch {
+	case t.cnt != nil:
+		return fmt.Sprint(t.cnt.Get())
+	case t.mp != nil:
+		return fmt.Sprintf("%d %s", t.mp.Size(), jsonStr(t.mp.Get("a")))
+	case t.li != nil:
+		n := t.li.Size()
+		if n == 0 {
+			return "0"
+		}
+		v, _ := t.li.GetMany(0, n)
+		return fmt.Sprintf("%d %s", n, jsonStr(v))
+	case t.doc != nil:
+		return jsonStr(t.doc.GetValue())
+	}
+	return ""
+}
+
 // Local executes a local API call (or a transaction of calls) on replica a.R.
 func (w *World) Local(a pt.Action) StepOut {
 	r := w.reps[a.R]
@@ -635,6 +660,8 @@ func (w *World) Local(a pt.Action) StepOut {
 	body := func(t callTarget) error {
 		for _, s := range a.Sub {
 			o := w.call(r, t, s)
+			// the body looks at what it has done so far (apply, inspect, decide): reads inside a transaction
+			o.Ret += " | sees " + readInTx(t)
 			subs = append(subs, o)
 			if o.Panic != "" {
 				panic("inner: " + o.Panic)
